@@ -117,6 +117,7 @@ def parse_structure(f):
         p = 5 + (0 if single else 1) + [0, 1, 2, 4][did] + ([1, 2, 4, 8][fcsf] if (fcsf or single) else 0)
         regions = [("fhdr", 4, p)]
         blocks = []
+        huf4 = []
         while True:
             hv = f[p] | (f[p + 1] << 8) | (f[p + 2] << 16)
             last, bt, bs = hv & 1, (hv >> 1) & 3, hv >> 3
@@ -138,6 +139,11 @@ def parse_structure(f):
                     hv2 = int.from_bytes(f[c:c + hsz], "little")
                     csz = (hv2 >> (4 + nb)) & ((1 << nb) - 1)
                     lsec = hsz + csz
+                    if sf != 0:      # 4 streams: where the jump table is, and how many bytes the four streams share
+                        hb = f[c + hsz]
+                        tsz = 0 if lt == 3 else ((1 + hb) if hb < 128 else (1 + ((hb - 127) + 1) // 2))
+                        if csz - tsz - 6 >= 4:
+                            huf4.append((c + hsz + tsz, csz - tsz - 6))
                     regions.append(("huf", c + hsz, min(c + hsz + 40, c + lsec)))
                     regions.append(("litend", max(c + hsz, c + lsec - 2), c + lsec))
                 regions.append(("lhdr", c, c + hsz))
@@ -154,7 +160,7 @@ def parse_structure(f):
             regions.append(("cksum", p, p + 4))
             ck = p
             p += 4
-        return dict(hs=regions[0][2], regions=[r for r in regions if r[2] > r[1]], blocks=blocks, end=p, cksum=ck)
+        return dict(hs=regions[0][2], regions=[r for r in regions if r[2] > r[1]], blocks=blocks, end=p, cksum=ck, huf4=huf4)
     except IndexError:
         return None
 
@@ -181,6 +187,26 @@ def mutate(rng, f, st, others):
     f = bytearray(f)
     names = sorted(set(r[0] for r in st["regions"])) if st else []
     k = rng.random()
+    if st and st.get("huf4") and rng.random() < 0.12:
+        # re-cut the four Huffman streams (jump table), total unchanged: one stream gets nearly everything, the others run dry,
+        # so a stream's read position crosses into its neighbours or below the start of the section
+        jo, T = rng.choice(st["huf4"])
+        if jo + 6 <= len(f):
+            pat = rng.choice(["0big", "1big", "3big", "tiny", "rand"])
+            if pat == "0big":
+                a, b, c_ = T - 3, 1, 1
+            elif pat == "1big":
+                a, b, c_ = 1, T - 3, 1
+            elif pat == "3big":
+                a, b, c_ = 1, 1, 1
+            elif pat == "tiny":
+                a, b, c_ = max(1, T - 40), rng.randint(1, 12), rng.randint(1, 12)
+            else:
+                cuts = sorted(rng.sample(range(1, max(4, T)), 3)) if T > 4 else [1, 2, 3]
+                a, b, c_ = cuts[0], cuts[1] - cuts[0], cuts[2] - cuts[1]
+            if min(a, b, c_) >= 1 and max(a, b, c_) < 65536:
+                f[jo:jo + 6] = a.to_bytes(2, "little") + b.to_bytes(2, "little") + c_.to_bytes(2, "little")
+                return bytes(f), "hufjump:" + pat
     if st and k < 0.72:
         name = rng.choice(names)
         reg = rng.choice([r for r in st["regions"] if r[0] == name])
@@ -362,6 +388,29 @@ def make_cases(ctx, rng, cd, witnesses, gdict):
         for _ in range(3):
             m, tag = mutate(rng, fr, st, others)
             add("F", m, "mut-nock:" + tag, dict_=d, flags="nock")
+    # hand-built 4-stream Huffman literals (table log 11, code lengths 1..11) whose streams consume their input at very different
+    # rates: one long stream of the shortest code, three tiny streams of the longest codes (and the other way round) - a stream
+    # runs dry after a few symbols and its read position walks down through its neighbours towards the start of the section
+    for j in range(12 if quick else 60):
+        N = rng.choice([20000, 40000, 80000, 120000])
+        s0 = rng.choice([2000, 5000, 10000, 30000])
+        tiny = [rng.choice([8, 8, 9, 16, 40, 2]) for _ in range(3)]         # the fast loops need 8 bytes per stream
+        a, b = (0x00, 0xFF) if j % 2 == 0 else (0xFF, 0x00)
+        order = 0 if j % 3 else rng.choice([1, 2, 3])          # which of the four streams is the long one (the loops' round count comes from stream 0)
+        sizes = tiny[:order] + [s0] + tiny[order:]
+        streams = []
+        for k, sz in enumerate(sizes):
+            fill = a if k == order else b
+            body = bytes([fill]) * (sz - 1) + bytes([0x01 if fill == 0 else 0xFF])
+            streams.append(body)
+        tree = bytes([127 + 11, (11 << 4) | 10, (9 << 4) | 8, (7 << 4) | 6, (5 << 4) | 4, (3 << 4) | 2, (1 << 4) | 0])
+        jump = b"".join(len(st_).to_bytes(2, "little") for st_ in streams[:3])
+        payload = tree + jump + b"".join(streams)
+        hv = 2 | (3 << 2) | (N << 4) | (len(payload) << 22)
+        lit = hv.to_bytes(5, "little") + payload
+        block = lit + b"\x00"
+        bh = 1 | (2 << 1) | (len(block) << 3)
+        add("F", MAGIC + bytes([0x00, 0x38]) + bh.to_bytes(3, "little") + block, "huf-overtake", cap=N + 64, flags="noasm" if j % 4 else "-")
     # (3) random bytes behind a valid magic / semi-structured random frames
     for i in range(160 if quick else 1500):
         r = rng.random()
